@@ -266,6 +266,11 @@ theorem C10_response_mac_eq_rfc (ts : Writer.Tsig) (message : List UInt8) (alg :
         (Spec.Tsig.digestInput .response message ts.rr.originalId (respVars ts.rr (ofWriterAlg alg)) requestMac) :=
   macFnWith_eq_rfc hm ts message alg requestMac key hmode wf hreq hmsg hlen
 
+/-- (d) applies to every TSIG the decision table records: its prepared RR is well formed -/
+theorem C10_prepared_rr_wf (kn : WName) (r : ReadTsigRr) (nowT : TimeSigned) (e : Nat)
+    (hl : ∀ l ∈ kn.labels, l.map Spec.Tsig.lower = l) (he : e < 65536) : RrWF (prepOf kn r nowT e) :=
+  prepOf_wf kn r nowT e hl he
+
 /-- the model's `macFn` is `macFnWith` with the real HMAC -/
 theorem C10_macFn_is_real_hmac (ts : Writer.Tsig) (message : List UInt8) :
     macFn ts message = macFnWith realHmac ts message := rfl
